@@ -186,10 +186,19 @@ func concretise(name string, abs []map[string]any) string {
 			if it["sub"] == true {
 				closeSub()
 				sub++
-				b.WriteString(fmt.Sprintf("  profile sub%d%s {\n    include <abstractions/base>\n\n", sub, flagsClause(fl)))
+				// every second header also carries extended attributes (another parenthesised clause of the header)
+				xa := ""
+				if sub%2 == 0 {
+					xa = " xattrs=(user.tag=demo)"
+				}
+				b.WriteString(fmt.Sprintf("  profile sub%d%s%s {\n    include <abstractions/base>\n\n", sub, xa, flagsClause(fl)))
 				open = 2
 			} else {
-				b.WriteString(fmt.Sprintf("profile %s @{exec_path}%s {\n  include <abstractions/base>\n\n  @{exec_path} mr,\n\n", name, flagsClause(fl)))
+				xa := ""
+				if shaS(name)[0]%2 == 0 {
+					xa = " xattrs=(user.tag=demo security.kind=x)"
+				}
+				b.WriteString(fmt.Sprintf("profile %s @{exec_path}%s%s {\n  include <abstractions/base>\n\n  @{exec_path} mr,\n\n", name, xa, flagsClause(fl)))
 				open = 1
 			}
 		case "decoy":
